@@ -41,3 +41,19 @@ Theorem C01_driver_optimal_sound :
 Proof. exact driver_optimal_sound. Qed.
 Print Assumptions C01_driver_optimal_sound.
 
+
+(* 5. end to end: whatever the oracles, an OPTIMAL answer of the driver on the internal form of the user's LP
+      is a true optimum of that LP (sentinel hypothesis on the returned point, monitored at run time) *)
+Theorem C01_driver_user_optimum :
+  forall M U float_solve basis_status ebasis max_iter a, 0 < M ->
+    let r := exact_solver M (to_internal M U) (un U) float_solve basis_status ebasis max_iter a in
+    r_rval r = false -> r_status r = StOptimal ->
+    exists s, r_sol r = Some s /\
+      (no_sentinel M (to_internal M U) (sx s ++ sslack s) = true -> uis_optimum M U (qnth (sx s ++ sslack s)) (sval s)).
+Proof.
+  intros M U fs bs eb mi a HM r H1 H2.
+  destruct (driver_optimal_sound M (to_internal M U) (un U) fs bs eb mi a H1 H2) as (s & B & ps & ds & E & T).
+  exists s. split; [exact E|]. intros NS. apply user_optimum; [exact HM|].
+  exact (opt_test_sound_inf M _ _ B ps ds s (to_internal_wf M U) (to_internal_wf_logicals M U) T NS).
+Qed.
+Print Assumptions C01_driver_user_optimum.
